@@ -1,5 +1,380 @@
 package main
 
-func rulesTable() {}
-func rulesE2E()   {}
-func rulesGeth()  {}
+import (
+	"bytes"
+	"encoding/json"
+	"fmt"
+	"math/big"
+	"os"
+	"strings"
+	"sync"
+	"time"
+
+	ecommon "github.com/ethereum/go-ethereum/common"
+	"github.com/ethereum/go-ethereum/consensus/ethash"
+	etypes "github.com/ethereum/go-ethereum/core/types"
+	"github.com/ethereum/go-ethereum/crypto"
+	eparams "github.com/ethereum/go-ethereum/params"
+	"github.com/polynetwork/poly/common"
+	hscom "github.com/polynetwork/poly/native/service/header_sync/common"
+	"github.com/polynetwork/poly/native/service/header_sync/eth"
+
+	"verifh/kit/nativekit"
+	"verifh/kit/vio"
+)
+
+// C28: rows printed by TLC from EthRules.tla (P-TABLE) against the real functions and the real SyncBlockHeader.
+
+const londonHeight = 12965000
+
+type diffT struct {
+	B    int64 `json:"b"`
+	S    uint  `json:"s"`
+	E    int   `json:"e"`
+	Plus int64 `json:"plus"`
+}
+
+func (d diffT) big() *big.Int {
+	x := new(big.Int).Lsh(big.NewInt(d.B), d.S)
+	if d.E >= 0 {
+		x.Add(x, new(big.Int).Lsh(big.NewInt(1), uint(d.E)))
+	}
+	return x.Add(x, big.NewInt(d.Plus))
+}
+
+func uncleHash(u bool) ecommon.Hash {
+	if u {
+		return ecommon.Hash{0xab, 0xcd}
+	}
+	return etypes.EmptyUncleHash
+}
+
+func parseRow(raw []byte, v interface{}) {
+	s := string(raw)
+	const pre = `<<"ROW", "`
+	if strings.HasPrefix(s, pre) && strings.HasSuffix(s, `">>`) {
+		s = s[len(pre) : len(s)-3]
+		s = strings.NewReplacer(`\"`, `"`, `\\`, `\`).Replace(s)
+	}
+	if err := json.Unmarshal([]byte(s), v); err != nil {
+		vio.Fatal("bad row: %v: %.200s", err, s)
+	}
+}
+
+type tally struct {
+	mu               sync.Mutex
+	rows, nontrivial int
+	mism             int
+	seen             map[string]bool
+}
+
+func (t *tally) add(raw []byte, nontrivial bool) {
+	t.mu.Lock()
+	t.rows++
+	if nontrivial && !t.seen[string(raw)] {
+		t.seen[string(raw)] = true
+		t.nontrivial++
+	}
+	t.mu.Unlock()
+}
+func (t *tally) mismatch(table string, raw []byte, what string, exp, got interface{}) {
+	t.mu.Lock()
+	t.mism++
+	n := t.mism
+	t.mu.Unlock()
+	if n <= 200 {
+		var row interface{}
+		parseRow(raw, &row)
+		vio.Emit(map[string]interface{}{"mismatch": true, "table": table, "what": what, "row": row, "expected": exp, "got": got})
+	}
+}
+func (t *tally) done(table string) {
+	vio.Emit(map[string]interface{}{"summary": true, "table": table, "rows": t.rows, "distinct": t.nontrivial, "mismatches": t.mism})
+}
+
+type calcRow struct {
+	Row struct {
+		Pd     int64 `json:"pd"`
+		S      uint  `json:"s"`
+		Dt     int64 `json:"dt"`
+		Uncles bool  `json:"uncles"`
+		Num    int64 `json:"num"`
+		Delay  int64 `json:"delay"`
+	} `json:"row"`
+	Diff diffT `json:"diff"`
+}
+
+func rulesTable() {
+	if len(os.Args) < 3 {
+		vio.Fatal("usage: vd-eth rules-table calc|gas|fee|rlp|size")
+	}
+	table := os.Args[2]
+	lines := vio.ReadLines()
+	t := &tally{seen: map[string]bool{}}
+	rng := vio.NewRNG(vio.Seed())
+	t0 := uint64(1500000000 + rng.Intn(100000000))
+	vio.ParMap(len(lines), workers(), func(i int) {
+		raw := lines[i]
+		switch table {
+		case "calc":
+			var r calcRow
+			parseRow(raw, &r)
+			parent := &eth.Header{Number: big.NewInt(r.Row.Num - 1), Time: t0, UncleHash: uncleHash(r.Row.Uncles),
+				Difficulty: new(big.Int).Lsh(big.NewInt(r.Row.Pd), r.Row.S)}
+			exp := r.Diff.big()
+			var got []*big.Int
+			var names []string
+			if p := vio.Safe(func() {
+				if r.Row.Delay == 9000000 { // the fixed pre-London calculator
+					got = append(got, eth.VerifDifficultyCalculator(new(big.Int).SetUint64(t0+uint64(r.Row.Dt)), parent))
+					names = append(names, "difficultyCalculator")
+				}
+				got = append(got, eth.VerifMakeDifficultyCalculator(big.NewInt(r.Row.Delay))(t0+uint64(r.Row.Dt), parent))
+				names = append(names, "makeDifficultyCalculator")
+			}); p != "" {
+				t.mismatch(table, raw, "panic", exp.String(), p)
+			}
+			for k, g := range got {
+				if g.Cmp(exp) != 0 {
+					t.mismatch(table, raw, names[k], exp.String(), g.String())
+				}
+			}
+			t.add(raw, exp.Cmp(parent.Difficulty) != 0)
+		case "gas":
+			var r struct {
+				Row struct {
+					Pgl uint64 `json:"pgl"`
+					Gl  uint64 `json:"gl"`
+				} `json:"row"`
+				Ok bool `json:"ok"`
+			}
+			parseRow(raw, &r)
+			err := eth.VerifyGaslimit(r.Row.Pgl, r.Row.Gl)
+			if (err == nil) != r.Ok {
+				t.mismatch(table, raw, "VerifyGaslimit", r.Ok, fmt.Sprint(err))
+			}
+			t.add(raw, !r.Ok)
+		case "fee":
+			var r struct {
+				Row struct {
+					Plondon bool   `json:"plondon"`
+					Pgl     uint64 `json:"pgl"`
+					Pgu     uint64 `json:"pgu"`
+					Pbf     int64  `json:"pbf"`
+				} `json:"row"`
+				Expected int64  `json:"expected"`
+				Gl       uint64 `json:"gl"`
+				Bf       int64  `json:"bf"`
+				Ok       bool   `json:"ok"`
+			}
+			parseRow(raw, &r)
+			parent := &eth.Header{Number: big.NewInt(londonHeight - 1), GasLimit: r.Row.Pgl, GasUsed: r.Row.Pgu}
+			if r.Row.Plondon {
+				parent.Number = big.NewInt(londonHeight + int64(i%3))
+				parent.BaseFee = big.NewInt(r.Row.Pbf)
+			}
+			child := &eth.Header{Number: new(big.Int).Add(parent.Number, big.NewInt(1)), GasLimit: r.Gl}
+			if r.Bf >= 0 {
+				child.BaseFee = big.NewInt(r.Bf)
+			}
+			var fee *big.Int
+			var err error
+			if p := vio.Safe(func() { fee = eth.CalcBaseFee(parent); err = eth.VerifyEip1559Header(parent, child) }); p != "" {
+				t.mismatch(table, raw, "panic", r.Expected, p)
+				return
+			}
+			if fee.Cmp(big.NewInt(r.Expected)) != 0 {
+				t.mismatch(table, raw, "CalcBaseFee", r.Expected, fee.String())
+			}
+			if (err == nil) != r.Ok {
+				t.mismatch(table, raw, "VerifyEip1559Header", r.Ok, fmt.Sprint(err))
+			}
+			t.add(raw, !r.Ok || r.Expected != r.Row.Pbf)
+		case "rlp":
+			var r struct {
+				Row map[string][]int `json:"row"`
+				Rlp []int            `json:"rlp"`
+			}
+			parseRow(raw, &r)
+			bs := func(k string) []byte {
+				b := make([]byte, len(r.Row[k]))
+				for j, x := range r.Row[k] {
+					b[j] = byte(x)
+				}
+				return b
+			}
+			u64 := func(k string) uint64 { return new(big.Int).SetBytes(bs(k)).Uint64() }
+			h := &eth.Header{ParentHash: ecommon.BytesToHash(bs("parentHash")), UncleHash: ecommon.BytesToHash(bs("sha3Uncles")),
+				Coinbase: ecommon.BytesToAddress(bs("miner")), Root: ecommon.BytesToHash(bs("stateRoot")),
+				TxHash: ecommon.BytesToHash(bs("transactionsRoot")), ReceiptHash: ecommon.BytesToHash(bs("receiptsRoot")),
+				Bloom: etypes.BytesToBloom(bs("logsBloom")), Difficulty: new(big.Int).SetBytes(bs("difficulty")),
+				Number: new(big.Int).SetBytes(bs("number")), GasLimit: u64("gasLimit"), GasUsed: u64("gasUsed"), Time: u64("timestamp"),
+				Extra: bs("extraData"), MixDigest: ecommon.BytesToHash(bs("mixHash"))}
+			copy(h.Nonce[:], bs("nonce"))
+			hasFee := !(len(r.Row["baseFee"]) == 1 && r.Row["baseFee"][0] == -1)
+			if hasFee {
+				h.BaseFee = new(big.Int).SetBytes(bs("baseFee"))
+			}
+			enc := make([]byte, len(r.Rlp))
+			for j, x := range r.Rlp {
+				enc[j] = byte(x)
+			}
+			exp := crypto.Keccak256Hash(enc)
+			if got := h.Hash(); got != exp {
+				t.mismatch(table, raw, "Header.Hash", exp.Hex(), got.Hex())
+			}
+			// the stored form must keep the identity: JSON round trip (as HEADER_INDEX stores it) preserves the hash
+			if js, err := json.Marshal(h); err == nil {
+				var h2 eth.Header
+				if err := json.Unmarshal(js, &h2); err != nil || h2.Hash() != exp {
+					t.mismatch(table, raw, "Header.Hash after JSON round trip", exp.Hex(), fmt.Sprint(err, h2.Hash().Hex()))
+				}
+			}
+			if !hasFee { // sanity of the transcription: go-ethereum v1.9.15 hashes legacy headers the same way
+				gh := &etypes.Header{ParentHash: h.ParentHash, UncleHash: h.UncleHash, Coinbase: h.Coinbase, Root: h.Root, TxHash: h.TxHash,
+					ReceiptHash: h.ReceiptHash, Bloom: h.Bloom, Difficulty: h.Difficulty, Number: h.Number, GasLimit: h.GasLimit,
+					GasUsed: h.GasUsed, Time: h.Time, Extra: h.Extra, MixDigest: h.MixDigest, Nonce: h.Nonce}
+				if gh.Hash() != exp {
+					vio.Emit(map[string]interface{}{"specsanity": true, "table": table, "what": "go-ethereum v1.9.15 Header.Hash differs from the spec's RLP",
+						"expected": exp.Hex(), "geth": gh.Hash().Hex()})
+				}
+			}
+			t.add(raw, true)
+		case "size":
+			var r struct {
+				First       uint64 `json:"first"`
+				Last        uint64 `json:"last"`
+				DatasetRows uint64 `json:"datasetRows"`
+				CacheRows   uint64 `json:"cacheRows"`
+			}
+			parseRow(raw, &r)
+			for _, blk := range []uint64{r.First, r.First + 1, (r.First + r.Last) / 2, r.Last} {
+				if g := eth.VerifDatasetSize(blk); g != r.DatasetRows*128 {
+					t.mismatch(table, raw, fmt.Sprintf("datasetSize(%d)", blk), r.DatasetRows*128, g)
+				}
+				if g := eth.VerifCacheSize(blk); g != r.CacheRows*64 {
+					t.mismatch(table, raw, fmt.Sprintf("cacheSize(%d)", blk), r.CacheRows*64, g)
+				}
+			}
+			t.add(raw, true)
+		default:
+			vio.Fatal("unknown table %s", table)
+		}
+	})
+	t.done(table)
+}
+
+// rules-geth: the spec's difficulty rows against go-ethereum v1.9.15 (main-net config). A difference means the
+// transcription (or the chosen era table) is wrong: it is reported as a spec-sanity failure, never as a violation.
+func rulesGeth() {
+	lines := vio.ReadLines()
+	n, bad := 0, 0
+	for _, raw := range lines {
+		var r calcRow
+		parseRow(raw, &r)
+		t0 := uint64(1600000000)
+		parent := &etypes.Header{Number: big.NewInt(r.Row.Num - 1), Time: t0, UncleHash: uncleHash(r.Row.Uncles),
+			Difficulty: new(big.Int).Lsh(big.NewInt(r.Row.Pd), r.Row.S)}
+		got := ethash.CalcDifficulty(eparams.MainnetChainConfig, t0+uint64(r.Row.Dt), parent)
+		n++
+		if exp := r.Diff.big(); got.Cmp(exp) != 0 {
+			bad++
+			if bad <= 20 {
+				var row interface{}
+				parseRow(raw, &row)
+				vio.Emit(map[string]interface{}{"specsanity": true, "table": "geth", "row": row, "expected": exp.String(), "geth": got.String()})
+			}
+		}
+	}
+	vio.Emit(map[string]interface{}{"summary": true, "table": "geth", "rows": n, "mismatches": bad})
+}
+
+// rules-e2e: parent installed as trust root, child through the real SyncBlockHeader; accepted <=> the spec says valid.
+type e2eRow struct {
+	Row struct {
+		Num int64  `json:"num"`
+		Dev string `json:"dev"`
+	} `json:"row"`
+	Parent struct {
+		Num    int64  `json:"num"`
+		Time   int64  `json:"time"`
+		Gl     uint64 `json:"gl"`
+		Gu     uint64 `json:"gu"`
+		Bf     int64  `json:"bf"`
+		Pd     int64  `json:"pd"`
+		S      uint   `json:"s"`
+		Uncles bool   `json:"uncles"`
+	} `json:"parent"`
+	Child struct {
+		Num   int64  `json:"num"`
+		Time  int64  `json:"time"`
+		Extra int    `json:"extra"`
+		Gl    uint64 `json:"gl"`
+		Gu    uint64 `json:"gu"`
+		Bf    int64  `json:"bf"`
+		Diff  diffT  `json:"diff"`
+	} `json:"child"`
+	Ok bool `json:"ok"`
+}
+
+func rulesE2E() {
+	lines := vio.ReadLines()
+	t := &tally{seen: map[string]bool{}}
+	seed := vio.Seed()
+	vio.ParMap(len(lines), workers(), func(i int) {
+		raw := lines[i]
+		var r e2eRow
+		parseRow(raw, &r)
+		rng := vio.NewRNG(seed*65537 + uint64(i))
+		pl := getSandbox()
+		ch := pl.next
+		pl.next++
+		defer func() { sbPool <- pl }()
+		base := time.Now().Unix() - 5000000 - int64(rng.Intn(1000000)) - r.Parent.Time
+		parent := &eth.Header{Number: big.NewInt(r.Parent.Num), Time: uint64(base + r.Parent.Time), GasLimit: r.Parent.Gl, GasUsed: r.Parent.Gu,
+			Difficulty: new(big.Int).Lsh(big.NewInt(r.Parent.Pd), r.Parent.S), UncleHash: uncleHash(r.Parent.Uncles),
+			Extra: []byte{}, Coinbase: ecommon.BytesToAddress(rng.Bytes(20)), Root: ecommon.BytesToHash(rng.Bytes(32))}
+		if r.Parent.Bf >= 0 {
+			parent.BaseFee = big.NewInt(r.Parent.Bf)
+		}
+		child := &eth.Header{ParentHash: parent.Hash(), Number: big.NewInt(r.Child.Num), Time: uint64(base + r.Child.Time),
+			GasLimit: r.Child.Gl, GasUsed: r.Child.Gu, Difficulty: r.Child.Diff.big(), UncleHash: etypes.EmptyUncleHash,
+			Extra: bytes.Repeat([]byte{0x5a}, r.Child.Extra), Coinbase: ecommon.BytesToAddress(rng.Bytes(20))}
+		if r.Child.Bf >= 0 {
+			child.BaseFee = big.NewInt(r.Child.Bf)
+		}
+		op := operator()
+		gb, _ := json.Marshal(parent)
+		gp := &hscom.SyncGenesisHeaderParam{ChainID: ch, GenesisHeader: gb}
+		sink := common.NewZeroCopySink(nil)
+		gp.Serialization(sink)
+		if _, _, err := pl.sb.Call(genesisHandler, nativekit.Tx(op.Address), sink.Bytes()); err != nil {
+			vio.Fatal("trust root install failed: %v", err)
+		}
+		cb, _ := json.Marshal(child)
+		sp := &hscom.SyncBlockHeaderParam{ChainID: ch, Address: op.Address, Headers: [][]byte{cb}}
+		s2 := common.NewZeroCopySink(nil)
+		sp.Serialization(s2)
+		var err error
+		if p := vio.Safe(func() { _, _, err = pl.sb.Call(syncHandler, nativekit.Tx(op.Address), s2.Bytes()) }); p != "" {
+			pl.sb.Cache.Reset()
+			t.mismatch("e2e", raw, "panic", r.Ok, p)
+			t.add(raw, !r.Ok)
+			return
+		}
+		accepted := err == nil
+		if accepted { // "accepted" means stored and head
+			ns := pl.sb.Service(nativekit.Tx(), nil)
+			ex, _ := eth.IsHeaderExist(ns, child.Hash().Bytes(), ch)
+			cur, _, cerr := eth.GetCurrentHeader(ns, ch)
+			if !ex || cerr != nil || cur.Hash() != child.Hash() {
+				t.mismatch("e2e", raw, "SyncBlockHeader returned success but the header is not the stored head", true, fmt.Sprint(ex, cerr))
+			}
+		}
+		if accepted != r.Ok {
+			t.mismatch("e2e", raw, "SyncBlockHeader", r.Ok, fmt.Sprintf("accepted=%v err=%v", accepted, err))
+		}
+		t.add(raw, !r.Ok)
+	})
+	t.done("e2e")
+}
